@@ -24,9 +24,9 @@ META["C16"] = {
 
 A_FILES = {"a.f90": ["module kinds", "type tol_t", "real :: abs_tol", "end type tol_t", "end module kinds",
                      # declared with capitals, referenced in lower case from B (names are case-insensitive)
-                     "module geom", "type Shape", "integer :: n", "contains", "procedure :: Describe => describe_shape", "procedure :: area => area_shape",
+                     "module Geom", "type Shape", "integer :: n", "contains", "procedure :: Describe => describe_shape", "procedure :: area => area_shape",
                      "end type Shape", "contains", "subroutine describe_shape(self)", "class(Shape) :: self", "end subroutine describe_shape",
-                     "function area_shape(self)", "class(Shape) :: self", "real :: area_shape", "end function area_shape", "end module geom",
+                     "function area_shape(self)", "class(Shape) :: self", "real :: area_shape", "end function area_shape", "end module Geom",
                      "module shared", "integer :: s", "end module shared",
                      # a facade that re-exports another module's type under a new name: B sees it only under that name
                      "module base_m", "type base_t", "integer :: b", "end type base_t", "end module base_m",
@@ -175,7 +175,7 @@ def _exported_rel(data):
     """relative URLs under which A exported module geom and type shape (read from A's real modules.json)"""
     import json
     mods = json.loads(data)["modules"]
-    g = [m for m in mods if m["name"] == "geom"][0]
+    g = [m for m in mods if m["name"].lower() == "geom"][0]
     t = [x for x in g.get("types", []) if x and x["name"].lower() == "shape"][0]
     strip = lambda u: u.split("/", 1)[-1]
     return strip(g["external_url"]), strip(t["external_url"])
@@ -247,7 +247,9 @@ def remote(ctx):
                 with contextlib.redirect_stdout(io.StringIO()), contextlib.redirect_stderr(io.StringIO()):
                     got = parserh.project(_b_remote(), post=_observe_remote, external={"a": url}, **PSET)
             E.reachable("loaded")
-            E.require(choice.apply(lambda n: n == 1, len(got["geom"])), "used external module not linked")
+            if len(got["geom"]) != 1:
+                E.require(False, "used external module not linked")
+                return
             E.require(choice.apply(lambda g, u: g == _rebase(u, rg), got["geom"][0], url), "module URL not re-based on the project's location")
             E.require(choice.apply(lambda g, u: g == _rebase(u, rt), got["shape"], url), "type URL not re-based on the project's location")
 
